@@ -435,8 +435,22 @@ func c17Unfolder(c *run.C) {
 	}
 	mapTypes := []reflect.Type{reflect.TypeOf(map[string]int{}), reflect.TypeOf(map[string]interface{}{}), reflect.TypeOf([]map[string]string{}), gen.TIface,
 		reflect.TypeOf(map[string]map[string]bool{}), reflect.TypeOf(map[string]zoo.Plain{}), reflect.TypeOf(struct{ M map[string]uint8 }{})}
+	// a sixth of the histories run an unfolder configured with user unfolders
+	// (gotype.Unfolders: primitive, processing and state unfolders) into
+	// targets that reach them - compared with a new unfolder of the same
+	// configuration, like everything else here
+	userMode := cacheCap < 0 && r.P(1, 5)
+	var uopts []gotype.UnfoldOption
+	if userMode {
+		uopts = append(uopts, gotype.Unfolders(zoo.UserUnfolders()...))
+		vo.BadUTF8, vo.SpecialF = false, false
+	}
 	mk := func() (doc, bool) {
 		t, v := genTypeValue(r, to, vo)
+		if userMode {
+			t = gen.Pick(r, zoo.UserTargets)
+			v = (&gen.ValueGen{R: r, O: vo}).Value(t, 0)
+		}
 		if mapsOnly {
 			t = gen.Pick(r, mapTypes)
 			v = (&gen.ValueGen{R: r, O: vo}).Value(t, 0)
@@ -445,7 +459,7 @@ func c17Unfolder(c *run.C) {
 		if err != nil {
 			return doc{}, false
 		}
-		em := &emitter{r: r, refs: true, extras: true, shuffle: true, floatInt: true, bad: true, special: true}
+		em := &emitter{r: r, refs: true, extras: !userMode, shuffle: true, floatInt: true, bad: !userMode, special: !userMode}
 		em.emit(mv)
 		return doc{t, em.out}, true
 	}
@@ -470,7 +484,7 @@ func c17Unfolder(c *run.C) {
 	}
 	c.Begin(map[string]interface{}{"history_types": desc, "probe_type": probe.t.String(), "probe": probe.s, "key_cache": cacheCap})
 	ft := reflect.New(probe.t)
-	fu, err := gotype.NewUnfolder(ft.Interface())
+	fu, err := gotype.NewUnfolder(ft.Interface(), uopts...)
 	if err != nil {
 		return
 	}
@@ -481,7 +495,10 @@ func c17Unfolder(c *run.C) {
 	if !c.Guard("fresh-unfolder", func() { ferr = mon.Replay(probe.s, fu, mon.ReplayOpts{ScribbleRefs: true}) }) {
 		return
 	}
-	u, _ := gotype.NewUnfolder(nil)
+	u, _ := gotype.NewUnfolder(nil, uopts...)
+	if userMode {
+		c.Observe("unfolder_histories_with_user_unfolders", 1)
+	}
 	if cacheCap >= 0 {
 		u.EnableKeyCache(cacheCap)
 		c.Observe("unfolder_histories_with_key_cache", 1)
